@@ -877,6 +877,58 @@ def gen_real_spec(rng):
     return dict(radixes=rad, ops=gen_real_ops(rng, rad, rng.randint(1, 7), 1))
 
 
+def check_param_isolation(ctx, rng, spec):
+    """Circuits assembled from another circuit's operations (*, +, append_circuit twice, get_slice, copy): set_param(i, v)
+    changes exactly entry i of params, the other circuit is untouched, and the stored unitary is the unitary at params."""
+    base = build_circuit(spec)
+    if base.num_params == 0:
+        return
+    how = rng.choice(['mul', 'add', 'append_circuit', 'copy'])
+    loc = list(range(base.num_qudits))
+    if how == 'mul':
+        big = base * rng.choice([2, 3])
+    elif how == 'add':
+        big = base + base
+    elif how == 'append_circuit':
+        big = base.copy()
+        big.append_circuit(base, loc)
+        big.append_circuit(base, loc)
+    elif how == 'slice':
+        big = base.get_slice(list(base._dag.keys())) if hasattr(base, 'get_slice') and len(base._dag) else base.copy()
+        big.append_circuit(base, loc)
+    else:
+        big = base.copy()
+        big.append_circuit(base.copy(), loc)
+    case = dict(stream='param_isolation', how=how, spec=strip_derived(spec))
+    ctx.case(case, nontrivial=True)
+    ctx.count('param_isolation_' + how)
+    base_before = [float(x) for x in base.params]
+    for _ in range(3):
+        n = big.num_params
+        if n == 0:
+            return
+        i = rng.randrange(n)
+        before = [float(x) for x in big.params]
+        v = round(rng.uniform(-3, 3), 3)
+        big.set_param(i, v)
+        after = [float(x) for x in big.params]
+        want = before[:i] + [v] + before[i + 1:]
+        if after != want:
+            ctx.violation(dict(call='set_param', symptom='changes_other_entries', built_by=how), dict(case, index=i, value=v), want, after,
+                          'set_param(i, v) on a circuit assembled from another circuit\'s operations changed entries other than i')
+            return
+        if [float(x) for x in base.params] != base_before:
+            ctx.violation(dict(call='set_param', symptom='changes_source_circuit', built_by=how), dict(case, index=i, value=v), base_before,
+                          [float(x) for x in base.params], 'set_param on the assembled circuit changed the circuit it was assembled from')
+            return
+        U0 = np.array(big.get_unitary().numpy)
+        U1 = np.array(big.get_unitary(after).numpy)
+        if np.max(np.abs(U0 - U1)) > 1e-10:
+            ctx.violation(dict(call='get_unitary', symptom='explicit_ne_stored', stream='param_isolation', built_by=how), dict(case, index=i, value=v),
+                          'equal', float(np.max(np.abs(U0 - U1))), 'stored-parameter unitary differs from get_unitary(params) after set_param')
+            return
+
+
 def check_float_circuit(ctx, rng, spec):
     from bqskit.qis.state.state import StateVector
     case = dict(stream='float', spec=strip_derived(spec))
@@ -1598,6 +1650,7 @@ def run(ctx: vf.Ctx):
     for _ in range(ctx.n(120, 2500)):
         fspec = gen_real_spec(rng)
         guarded(ctx, 'float', dict(stream='float', spec=strip_derived(fspec)), lambda: check_float_circuit(ctx, rng, fspec))
+        guarded(ctx, 'param_isolation', dict(stream='param_isolation', spec=strip_derived(fspec)), lambda: check_param_isolation(ctx, rng, fspec))
     tm['float'] = round(time.time() - t0, 1)
     t0 = time.time()
     # ---- iteration stream
